@@ -159,6 +159,12 @@ def run(ctx, rep) -> None:
     moves = bool(loops) and any(True for _ in _calls(loops[0], "move_to_dlq")) and not any(isinstance(x, (ast.Break, ast.Continue, ast.If)) for x in ast.walk(loops[0]))
     rep.check(moves, "C08.R4", "every selected row is moved", "for row in rows: self.move_to_dlq(row['id'], ...) unconditionally", cm.file, loops[0].lineno if loops else cm.node.lineno, disc="moves")
     wt = " and ".join(sweep.where)
+    # poll refuses a row once attempts reached the limit - whatever its lock or delivery time - so the sweep must take EVERY such
+    # row: any further conjunct (lock state, age, ...) leaves rows that are neither deliverable nor dead-lettered
+    extra = [c for c in sweep.where if not re.fullmatch(r"\(?\s*attempts\s*>=\s*[:\w%()]+(\s+or\s+attempts\s*>=\s*[:\w%()]+)*\s*\)?", c.strip(), re.I)]
+    rep.check(not extra, "C08.R4", "the sweep takes every attempts-exhausted row", "sole predicate: attempts >= limit" if not extra else
+              f"additional conjunct(s) {extra}: a row that exhausted its attempts but does not satisfy them (e.g. it still carries the lapsed lock of a worker that died on the last attempt) is refused by poll and skipped by the sweep - stuck in the queue for good",
+              sweep.file, sweep.line, disc="sweep-complete")
     rep.check(bool(re.search(r"attempts >= ", wt)) and "id" in sweep.text.lower().split("from")[0], "C08.R4", "sweep selects attempts-exhausted rows", f"where: {sweep.where}", sweep.file, sweep.line, disc="sweep-pred")
 
     # ---- R5 limit agreement ------------------------------------------------------------------------------
